@@ -114,6 +114,18 @@ def build_service(rec, behaviours=None):
                 next = __next__
             return Chunks()
 
+        @rpc(Unicode, Unicode, _returns=Unicode)
+        def negotiate(ctx, fmt, how):
+            # content negotiation: the answer to this request is written by another protocol than the application's
+            rec.enter('negotiate', fmt, how)
+            from spyne.protocol.json import JsonDocument
+            from spyne.protocol.xml import XmlDocument
+            from spyne.protocol.yaml import YamlDocument
+            ctx.out_protocol = {'json': JsonDocument, 'xml': XmlDocument, 'yaml': YamlDocument}[fmt]()
+            if how == 'fault':
+                raise Fault('Client.Negotiated', 'refused in %s' % fmt)
+            return u'answer in %s' % fmt
+
         @rpc(Unicode, Unicode, _returns=Integer)
         def fail(ctx, code, msg):
             rec.enter('fail', code, msg)
